@@ -3,7 +3,7 @@
 (* driver only converts text to the [json] datatype and back.                       *)
 From LCM Require Import Base.Prelude Base.Arr Base.ArrOps Base.PyVal Base.Json Base.QKernel.
 From LCM Require Import Gen.GridHelpersQ Gen.NdimageKernel Gen.GridValidate Gen.DiscreteNoShocks Gen.Argmax.
-From LCM Require Import Spec.Interp Spec.GridRules Model.Ndimage Model.Grids Model.Functools Model.Dispatchers.
+From LCM Require Import Spec.Interp Spec.GridRules Model.Ndimage Model.Grids Model.Functools Model.Dispatchers Model.Decode.
 Local Open Scope string_scope.
 
 Definition jpyval (j : json) : option pyval :=
@@ -129,6 +129,8 @@ Definition run_kernel (fn : string) (c : json) : option json :=
       then Some (JObj [("err", JStr "ValueError")])
       else Some (of_arr of_q (spacemap_named f vars sparse pdf kw))
     else None
+  else if String.eqb fn "solve_spec" then run_solve_spec c
+  else if String.eqb fn "rows" then run_rows c
   else if String.eqb fn "lin_points" then
     do a <- jfield_of jq "start" c ;; do b <- jfield_of jq "stop" c ;; do n <- jfield_of jnat "n" c ;;
     Some (of_list of_q (lin_points a b n))
